@@ -147,7 +147,7 @@ Proof.
   set (s3 := match k_cur (tasks s t) with Some p => _ | None => _ end).
   assert (K3 : kq s s3).
   { unfold s3. apply kq_same; [destruct (k_cur (tasks s t)); reflexivity|destruct (k_cur (tasks s t)); reflexivity|].
-    intros x. left. destruct (k_cur (tasks s t)); cbn; unfold upd; destruct (Nat.eqb_spec x t); [subst|..]; reflexivity. }
+    intros x. left. destruct (k_cur (tasks s t)); cbn; unfold upd; destruct (Nat.eqb_spec x t) as [->|]; reflexivity. }
   assert (K5 : kq s (upd_scope (scope_timeout s3 c) c (sc_active true))).
   { eapply kq_trans; [exact K3|]. eapply kq_trans; [apply kq_scope_timeout|apply kq_tasks_same; reflexivity]. }
   destruct (s_cancelled _); cbn [fst]; [|exact K5]. eapply kq_trans; [exact K5|apply kq_kframe, kframe_deliver_top].
@@ -164,7 +164,7 @@ Proof.
   - destruct (s_parent (scopes s c)); cbn; exact E1.
   - destruct (s_parent (scopes s c)); cbn; exact E2.
   - intros x. left. destruct (s_parent (scopes s c)); cbn; rewrite E3; unfold upd;
-      destruct (Nat.eqb_spec x t); [subst|..]; reflexivity.
+      destruct (Nat.eqb_spec x t) as [->|]; reflexivity.
 Qed.
 
 Lemma kq_scope_exit s c t exc : kq s (fst (scope_exit s c t exc)).
@@ -205,19 +205,25 @@ Proof. destruct fo; cbn; [apply kq_tasks_same; reflexivity|apply kq_refl]. Qed.
 
 Lemma kq_begin_act s t : kq s (begin_act s t).
 Proof.
-  unfold begin_act. eapply kq_trans; [apply kq_upd_task; intros k; now right|apply kq_tasks_same; reflexivity].
+  unfold begin_act. apply (kq_trans s (upd_task s t (tk_waiter None)));
+    [apply kq_upd_task; intros k; now right|apply kq_tasks_same; reflexivity].
 Qed.
 
 Lemma kq_incoming s t fo : kq s (fst (incoming s t fo)).
 Proof.
-  unfold incoming. cbn [fst]. eapply kq_trans; [apply kq_upd_task; intros k; now right|apply kq_tasks_same; reflexivity].
+  unfold incoming. cbn [fst].
+  apply (kq_trans s (upd_task s t (fun x => tk_must false (k_msg x) (tk_waiter None x))));
+    [apply kq_upd_task; intros k; now right|apply kq_tasks_same; reflexivity].
 Qed.
 
 Lemma kq_finish_task s t o : kq s (finish_task s t o).
 Proof.
-  unfold finish_task. eapply kq_trans; [|apply kq_tasks_same; reflexivity].
+  unfold finish_task.
   set (s1 := upd_task s t _). assert (K : kq s s1) by (apply kq_upd_task; intros k; now right).
-  destruct (k_group (tasks s t)); [|exact K]. eapply kq_trans; [exact K|apply kq_tasks_same; reflexivity].
+  destruct (k_group (tasks s t)).
+  - apply (kq_trans s (call_soon s1 (HTaskDone t))); [|apply kq_tasks_same; reflexivity].
+    eapply kq_trans; [exact K|apply kq_tasks_same; reflexivity].
+  - eapply kq_trans; [exact K|apply kq_tasks_same; reflexivity].
 Qed.
 
 Lemma kq_set_ctl s t c : kq s (set_ctl s t c).
@@ -276,3 +282,281 @@ Proof.
   - destruct (k_startfut (tasks s t)) as [f|]; [|apply kq_refl].
     destruct (f_st (futs s4 f)); try apply kq_refl. apply Kf.
 Qed.
+
+(* ---------------- composite operations ---------------- *)
+Lemma K_event_wait s t e : kstep s (fst (event_wait s t e)).
+Proof.
+  intros K. unfold event_wait. destruct (e_set (events s e)); cbn [fst].
+  - apply (KInv_kq s); [exact K|apply kq_bare_yield].
+  - unfold new_fut. cbn [fst]. apply (K_fresh_suspend s _ t K). apply kq_tasks_same; reflexivity.
+Qed.
+
+Lemma kq_aexit_raise s t g e : kq s (fst (aexit_raise s t g e)).
+Proof.
+  unfold aexit_raise. pose proof (kq_scope_exit s (g_scope (groups s g)) t (Some e)) as K1.
+  destruct (scope_exit s (g_scope (groups s g)) t (Some e)) as [s1 x]. cbn [fst] in K1.
+  assert (K2 : kq s (upd_group s1 g (gr_left true))) by (eapply kq_trans; [exact K1|apply kq_upd_group]).
+  destruct x; cbn [fst]; try exact K2. eapply kq_trans; [exact K2|]. apply kq_upd_task. intros k; now left.
+Qed.
+
+Lemma kq_aexit_finish s t g exc : kq s (fst (aexit_finish s t g exc)).
+Proof.
+  unfold aexit_finish. destruct (map snd (g_excs (groups s g))) as [|e0 es]; [destruct exc as [e|]|];
+    try apply kq_aexit_raise.
+  pose proof (kq_scope_exit s (g_scope (groups s g)) t None) as K1.
+  destruct (scope_exit s (g_scope (groups s g)) t None) as [s1 x]. cbn [fst] in K1.
+  assert (K2 : kq s (upd_group s1 g (gr_left true))) by (eapply kq_trans; [exact K1|apply kq_upd_group]).
+  destruct x; exact K2.
+Qed.
+
+Lemma K_block s s1 t c : kstep s s1 -> kstep s (fst (blocked (set_ctl s1 t c))).
+Proof.
+  intros H K. cbn [fst blocked]. apply (KInv_kq s1); [now apply H|].
+  eapply kq_trans; [apply kq_set_ctl|apply kq_set_running].
+Qed.
+
+Lemma K_ret_after s s1 t r : kstep s s1 -> kstep s (fst (ret_to_puppet s1 t r)).
+Proof. intros H K. apply K_ret. now apply H. Qed.
+
+Lemma K_wof s t g ws exc : kstep s (fst (aexit_wait_or_finish s t g ws exc)).
+Proof.
+  intros K. unfold aexit_wait_or_finish. destruct (g_tasks (groups s g)) as [|c0 cs].
+  - destruct ws as [w|].
+    + pose proof (kq_scope_exit s w t None) as K1.
+      destruct (scope_exit s w t None) as [s1 x]. cbn [fst] in K1.
+      destruct x.
+      * pose proof (kq_aexit_finish s1 t g exc) as K2. destruct (aexit_finish s1 t g exc) as [s2 r]. cbn [fst] in K2.
+        apply K_ret. apply (KInv_kq s); [exact K|eapply kq_trans; eauto].
+      * pose proof (kq_aexit_finish s1 t g exc) as K2. destruct (aexit_finish s1 t g exc) as [s2 r]. cbn [fst] in K2.
+        apply K_ret. apply (KInv_kq s); [exact K|eapply kq_trans; eauto].
+      * pose proof (kq_aexit_raise s1 t g e) as K2. destruct (aexit_raise s1 t g e) as [s2 r]. cbn [fst] in K2.
+        apply K_ret. apply (KInv_kq s); [exact K|eapply kq_trans; eauto].
+    + pose proof (kq_aexit_finish s t g exc) as K2. destruct (aexit_finish s t g exc) as [s2 r]. cbn [fst] in K2.
+      apply K_ret. now apply (KInv_kq s).
+  - assert (Tail : forall a w, KInv a ->
+              KInv (fst (let '(s1, f) := new_fut a in
+                         blocked (set_ctl (suspend_on (upd_group s1 g (gr_fut (Some f))) t f) t (CAexitWait g w exc))))).
+    { intros a w Ka. unfold new_fut. cbv zeta. cbn [fst blocked].
+      apply (KInv_kq (suspend_on (upd_group (fst (new_fut a)) g (gr_fut (Some (nfut a)))) t (nfut a))).
+      - apply (K_fresh_suspend a _ t Ka). apply kq_upd_group.
+      - eapply kq_trans; [apply kq_set_ctl|apply kq_set_running]. }
+    destruct ws as [w|]; [now apply Tail|].
+    cbn [fst]. apply Tail. apply (KInv_kq s); [exact K|].
+    eapply kq_trans; [apply (kq_new_scope s None false)|apply kq_scope_enter].
+Qed.
+
+Lemma K_puppet_op s0 t o : kstep s0 (fst (puppet_op s0 t o)).
+Proof.
+  intros K0. unfold puppet_op.
+  assert (K : KInv (begin_act s0 t)) by (apply (KInv_kq s0); [exact K0|apply kq_begin_act]).
+  set (s := begin_act s0 t) in *.
+  assert (Q : forall s1 r, kq s s1 -> KInv (fst (ret_to_puppet s1 t r))).
+  { intros s1 r H. apply K_ret. now apply (KInv_kq s). }
+  assert (B : forall s1 c, kq s s1 -> KInv (fst (blocked (set_ctl s1 t c)))).
+  { intros s1 c H. cbn [fst blocked]. apply (KInv_kq s); [exact K|].
+    eapply kq_trans; [exact H|]. eapply kq_trans; [apply kq_set_ctl|apply kq_set_running]. }
+  destruct o; try exact K0.
+  - unfold new_scope. cbv zeta. apply Q. apply (kq_new_scope s d sh).
+  - pose proof (kq_scope_enter s c t) as H. destruct (scope_enter s c t) as [s1 e]. now apply Q.
+  - pose proof (kq_scope_exit s c t (k_held (tasks s t))) as H.
+    destruct (scope_exit s c t (k_held (tasks s t))) as [s1 x]. cbn [fst] in H. destruct x.
+    + assert (H2 : kq s (upd_task s1 t (tk_held None))).
+      { eapply kq_trans; [exact H|]. apply kq_upd_task. intros k; now left. }
+      destruct (_ && _); now apply Q.
+    + now apply Q.
+    + now apply Q.
+  - apply Q. apply kq_scope_cancel.
+  - destruct (Bool.eqb _ b); [apply Q, kq_refl|]. apply Q. destruct b; [apply kq_upd_scope|].
+    eapply kq_trans; [apply kq_upd_scope|apply kq_kframe, kframe_restart].
+  - apply Q. set (s1 := cancel_timeout _ c).
+    assert (H : kq s s1) by (eapply kq_trans; [apply kq_upd_scope|apply kq_cancel_timeout]).
+    destruct (_ && _); [|exact H]. eapply kq_trans; [exact H|apply kq_scope_timeout].
+  - unfold new_scope. cbv zeta. apply Q. apply kq_tasks_same; reflexivity.
+  - destruct (g_entered (groups s g)); [apply Q, kq_refl|].
+    pose proof (kq_scope_enter (upd_group s g (gr_entered true)) (g_scope (groups (upd_group s g (gr_entered true)) g)) t) as H.
+    destruct (scope_enter _ _ t) as [s2 e]. cbn [fst] in H. apply Q.
+    eapply kq_trans; [apply kq_upd_group|exact H].
+  - set (s1 := match k_held (tasks s t) with Some e => _ | None => s end).
+    assert (H1 : kq s s1).
+    { unfold s1. destruct (k_held (tasks s t)) as [e|]; [|apply kq_refl]. cbv zeta.
+      destruct (is_cancel e); [apply kq_scope_cancel|]. eapply kq_trans; [apply kq_scope_cancel|apply kq_upd_group]. }
+    assert (K1 : KInv s1) by now apply (KInv_kq s).
+    destruct (g_tasks (groups s1 g)) eqn:Eg.
+    + unfold new_scope. cbv zeta. cbn [fst blocked]. apply (KInv_kq s1); [exact K1|].
+      eapply kq_trans; [apply (kq_new_scope s1 None true)|]. eapply kq_trans; [apply kq_scope_enter|].
+      eapply kq_trans; [apply kq_bare_yield|]. eapply kq_trans; [apply kq_set_ctl|apply kq_set_running].
+    + now apply K_wof.
+  - destruct (group_active s g); cbn [negb]; [|apply Q, kq_refl].
+    pose proof (kq_spawn_task s g None) as H. destruct (spawn_task s g None) as [s1 c]. now apply Q.
+  - destruct (group_active s g); cbn [negb]; [|apply Q, kq_refl].
+    unfold new_fut. cbv zeta.
+    match goal with |- context [spawn_task ?a g ?sf] =>
+      pose proof (kq_spawn_task a g sf) as H; destruct (spawn_task a g sf) as [s2 c] end.
+    cbn [fst blocked] in *. apply (KInv_kq (suspend_on s2 t (nfut s))).
+    + apply (K_fresh_suspend s s2 t K). exact H.
+    + eapply kq_trans; [apply kq_set_ctl|apply kq_set_running].
+  - destruct (k_startfut (tasks s t)) as [f|]; [|apply Q, kq_refl].
+    destruct (f_st (futs s f)); apply Q; try apply kq_refl. apply kq_kframe, kframe_fut_complete.
+  - destruct (e_set _); apply Q; [apply kq_refl|apply kq_scope_cancel].
+  - pose proof (K_event_wait s t (k_hevent (tasks s h)) K) as H.
+    destruct (event_wait s t (k_hevent (tasks s h))) as [s1 f]. cbn [fst blocked] in *.
+    apply (KInv_kq s1); [exact H|]. eapply kq_trans; [apply kq_set_ctl|apply kq_set_running].
+  - apply B. apply kq_bare_yield.
+  - destruct (ckif_spins _ _ _); [apply B, kq_bare_yield|apply Q, kq_refl].
+  - unfold new_scope. cbv zeta. apply B.
+    eapply kq_trans; [apply (kq_new_scope s None true)|]. eapply kq_trans; [apply kq_scope_enter|apply kq_bare_yield].
+  - unfold new_fut. cbv zeta. destruct d as [dt|].
+    + unfold call_at. cbv zeta. cbn [fst blocked].
+      match goal with |- KInv (set_running (set_ctl (suspend_on ?a t ?f) t ?c) None) =>
+        apply (KInv_kq (suspend_on a t (nfut s))) end.
+      * apply (K_fresh_suspend s _ t K). apply kq_tasks_same; reflexivity.
+      * eapply kq_trans; [apply kq_set_ctl|apply kq_set_running].
+    + cbn [fst blocked].
+      match goal with |- KInv (set_running (set_ctl (suspend_on ?a t ?f) t ?c) None) =>
+        apply (KInv_kq (suspend_on a t (nfut s))) end.
+      * apply (K_fresh_suspend s _ t K). apply kq_refl.
+      * eapply kq_trans; [apply kq_set_ctl|apply kq_set_running].
+  - apply Q. apply kq_upd_task. intros k; now left.
+  - apply Q. apply kq_upd_task. intros k; now left.
+  - apply Q. apply kq_upd_task. intros k; now left.
+  - apply Q. apply kq_kframe, kframe_task_uncancel.
+  - cbn [fst]. apply (KInv_kq (park s t)); [now apply K_park|apply kq_set_running].
+  - unfold new_scope. cbv zeta.
+    match goal with |- context [scope_enter ?a ?c t] =>
+      pose proof (kq_scope_enter a c t) as H; destruct (scope_enter a c t) as [s2 e] end.
+    cbn [fst] in H. apply Q. eapply kq_trans; [apply (kq_new_scope s d sh)|exact H].
+Qed.
+
+Lemma K_puppet_finish s0 t v : kstep s0 (fst (puppet_finish s0 t v)).
+Proof.
+  intros K0. unfold puppet_finish.
+  set (s := begin_act s0 t).
+  set (raw := match k_held (tasks s t) with Some e => OExc e | None => ORet v end).
+  set (s1 := upd_task s t (tk_final (Some raw))).
+  assert (H1 : kq s0 s1).
+  { eapply kq_trans; [apply kq_begin_act|]. apply kq_upd_task. intros k; now left. }
+  destruct (k_group (tasks s t)).
+  - set (s2 := upd_task s1 t _). set (s3 := event_set s2 (k_hevent (tasks s t))).
+    assert (H3 : kq s0 s3).
+    { eapply kq_trans; [exact H1|]. eapply kq_trans; [|apply kq_event_set].
+      apply kq_upd_task. intros k. destruct raw; now left. }
+    pose proof (kq_scope_exit s3 (k_hscope (tasks s t)) t (k_held (tasks s t))) as H4.
+    destruct (scope_exit s3 (k_hscope (tasks s t)) t (k_held (tasks s t))) as [s4 x]. cbn [fst] in H4.
+    destruct x; cbn [fst]; apply (KInv_kq s0); try exact K0;
+      (eapply kq_trans; [exact H3|]; eapply kq_trans; [exact H4|apply kq_finish_task]).
+  - cbn [fst]. apply (KInv_kq s0); [exact K0|]. eapply kq_trans; [exact H1|apply kq_finish_task].
+Qed.
+
+Lemma K_resume s0 t fo : kstep s0 (fst (resume s0 t fo)).
+Proof.
+  intros K0. unfold resume. pose proof (kq_incoming s0 t fo) as H0.
+  destruct (incoming s0 t fo) as [s inc]. cbn [fst] in H0.
+  assert (K : KInv s) by now apply (KInv_kq s0).
+  assert (Q : forall s1 r, kq s s1 -> KInv (fst (ret_to_puppet s1 t r))).
+  { intros s1 r H. apply K_ret. now apply (KInv_kq s). }
+  destruct (k_ctl (tasks s t)); try exact K0.
+  - (* CNew *)
+    set (s1 := upd_task s t (tk_started true)).
+    assert (H1 : kq s s1) by (apply kq_upd_task; intros k; now left).
+    destruct inc as [e|].
+    + cbn [fst]. apply (KInv_kq s); [exact K|]. eapply kq_trans; [exact H1|apply kq_finish_task].
+    + cbn [fst]. set (s2 := match k_group (tasks s1 t) with Some _ => _ | None => s1 end).
+      assert (H2 : kq s s2).
+      { unfold s2. destruct (k_group (tasks s1 t)); [|exact H1]. eapply kq_trans; [exact H1|apply kq_scope_enter]. }
+      apply (KInv_kq (park s2 t)); [apply K_park; now apply (KInv_kq s)|apply kq_set_running].
+  - (* CIdle *)
+    cbn [fst]. set (s1 := match inc with Some e => upd_task s t (tk_held (Some e)) | None => s end).
+    assert (H1 : kq s s1) by (unfold s1; destruct inc; [apply kq_upd_task; intros k0; now left|apply kq_refl]).
+    apply (KInv_kq (park s1 t)); [apply K_park; now apply (KInv_kq s)|apply kq_set_running].
+  - (* CYield *)
+    destruct k as [| |c].
+    + apply Q, kq_refl.
+    + destruct inc; [apply Q, kq_refl|]. cbn [fst blocked]. apply (KInv_kq s); [exact K|].
+      eapply kq_trans; [apply kq_bare_yield|apply kq_set_running].
+    + pose proof (kq_scope_exit s c t inc) as H. destruct (scope_exit s c t inc) as [s1 x]. cbn [fst] in H.
+      destruct x; now apply Q.
+  - apply Q. apply kq_tasks_same; reflexivity.
+  - (* CAexitWait *)
+    set (s1 := upd_group s g (gr_fut None)).
+    destruct inc as [e|].
+    + apply K_wof. apply (KInv_kq s); [exact K|].
+      eapply kq_trans; [apply (kq_upd_group s g (gr_fut None))|]. eapply kq_trans; [apply kq_upd_scope|apply kq_scope_cancel].
+    + apply K_wof. apply (KInv_kq s); [exact K|apply kq_upd_group].
+  - (* CAexitCk *)
+    pose proof (kq_scope_exit s sc t inc) as H. destruct (scope_exit s sc t inc) as [s1 x]. cbn [fst] in H.
+    assert (K1 : KInv s1) by now apply (KInv_kq s).
+    destruct x as [| |e].
+    + now apply K_wof.
+    + destruct inc as [e|]; [|now apply K_wof].
+      destruct (is_cancel e).
+      * apply K_wof. apply (KInv_kq s1); [exact K1|apply kq_scope_cancel].
+      * pose proof (kq_aexit_raise s1 t g e) as H2. destruct (aexit_raise s1 t g e) as [s2 r]. cbn [fst] in H2.
+        apply K_ret. now apply (KInv_kq s1).
+    + pose proof (kq_aexit_raise s1 t g e) as H2. destruct (aexit_raise s1 t g e) as [s2 r]. cbn [fst] in H2.
+      apply K_ret. now apply (KInv_kq s1).
+  - (* CStartWait *)
+    destruct inc as [e|]; [|apply Q, kq_refl].
+    destruct (handle_pending s child); [|apply Q, kq_refl].
+    unfold new_scope. cbv zeta.
+    set (s1 := scope_cancel s (k_hscope (tasks s child)) false).
+    match goal with |- context [scope_enter ?a ?c t] => set (s3 := fst (scope_enter a c t)) end.
+    assert (H3 : kq s s3).
+    { eapply kq_trans; [apply kq_scope_cancel|]. eapply kq_trans; [apply (kq_new_scope s1 None true)|apply kq_scope_enter]. }
+    pose proof (K_event_wait s3 t (k_hevent (tasks s3 child)) (KInv_kq _ _ K H3)) as H4.
+    destruct (event_wait s3 t (k_hevent (tasks s3 child))) as [s4 wf]. cbn [fst blocked] in *.
+    apply (KInv_kq s4); [exact H4|]. eapply kq_trans; [apply kq_set_ctl|apply kq_set_running].
+  - (* CStartJoin *)
+    set (s1 := event_unwait s (k_hevent (tasks s child)) f).
+    pose proof (kq_scope_exit s1 sc t inc) as H. destruct (scope_exit s1 sc t inc) as [s2 x]. cbn [fst] in H.
+    assert (H2 : kq s s2) by (eapply kq_trans; [apply kq_event_unwait|exact H]).
+    destruct x; [| destruct inc |]; now apply Q.
+  - apply Q. apply kq_event_unwait.
+Qed.
+
+Lemma K_run_handle s h : kstep s (fst (run_handle s h)).
+Proof.
+  intros K. unfold run_handle. destruct (negb _); [exact K|].
+  set (s1 := set_ready s (remove_first h (ready s))).
+  assert (K1 : KInv s1) by (apply (KInv_kq s); [exact K|apply kq_tasks_same; reflexivity]).
+  destruct h; cbn [fst].
+  - now apply K_resume.
+  - now apply K_resume.
+  - apply (KInv_kq s1); [exact K1|].
+    eapply kq_trans; [apply kq_set_running|]. eapply kq_trans; [apply kq_kframe, kframe_deliver_top|apply kq_set_running].
+  - apply (KInv_kq s1); [exact K1|apply kq_run_task_done].
+  - apply (KInv_kq s1); [exact K1|apply kq_kframe, kframe_fut_complete].
+  - apply (KInv_kq s1); [exact K1|].
+    eapply kq_trans; [apply kq_set_running|]. eapply kq_trans; [apply kq_scope_timeout|apply kq_set_running].
+Qed.
+
+Theorem K_step s o : kstep s (fst (step s o)).
+Proof.
+  intros K. unfold step. destruct (actor o) as [t|].
+  - destruct (negb (idle s t)); [exact K|]. destruct o; try (now apply K_puppet_op). now apply K_puppet_finish.
+  - destruct o; try exact K.
+    + (* ANewRoot *)
+      unfold new_root. cbn [fst].
+      match goal with |- KInv (set_running (park ?a ?t) None) => set (s1 := a) end.
+      apply (KInv_kq (park s1 (ntask s))); [|apply kq_set_running].
+      apply K_park. apply (KInv_kq s); [exact K|]. apply kq_same; [reflexivity|reflexivity|].
+      intros x. unfold s1. cbn. unfold upd. destruct (Nat.eqb_spec x (ntask s)); [now right|now left].
+    + cbn [fst]. apply (KInv_kq s); [exact K|apply kq_kframe, kframe_task_cancel].
+    + cbn [fst]. apply (KInv_kq s); [exact K|].
+      eapply kq_trans; [apply kq_set_running|]. eapply kq_trans; [apply kq_scope_cancel|apply kq_set_running].
+    + now apply K_run_handle.
+    + destruct (Z.ltb dt 0); [exact K|]. cbn [fst]. apply (KInv_kq s); [exact K|apply kq_tasks_same; reflexivity].
+Qed.
+
+Lemma KInv_init : KInv init.
+Proof. constructor; [intros t f H; discriminate|intros t f H; discriminate]. Qed.
+
+(* for every op sequence at all *)
+Theorem reach_kinv ops : KInv (final step init ops).
+Proof.
+  assert (G : forall s, KInv s -> KInv (final step s ops)).
+  { induction ops as [|o r IH]; intros s K; cbn; [exact K|]. apply IH. now apply K_step. }
+  apply G, KInv_init.
+Qed.
+
+Corollary reach_wait_link ops : wait_link (final step init ops).
+Proof. apply reach_kinv. Qed.
